@@ -24,7 +24,9 @@ use std::str::FromStr;
 use std::sync::atomic::{AtomicUsize, Ordering};
 use std::sync::Arc;
 
-const PROBE_PATTERN: &str = "{l} {t} {m}{n}";
+/// mirror of `patternTexts` (Pipeline.lean): three-token patterns whose last token is the message
+const PATTERNS: &[&str] = &["{l} {t} {m}{n}", "{t} {l} {m}{n}", "{l} [{t}] {m}{n}"];
+const DEFAULT_PATTERN: &str = "{d} {l} {t} - {m}{n}";
 const T0: i64 = 1_700_000_000;
 
 // ------------------------------------------------------------------------------------------------
@@ -151,10 +153,36 @@ fn toml_inline(v: &V) -> String {
     }
 }
 
-/// TOML has no null: null-valued entries are left out. Top-level keys with inline values, so that
-/// any key order is expressible.
-fn to_toml(v: &V) -> String {
+fn toml_is_table(v: &V) -> bool {
+    matches!(v, V::Map(m) if !m.is_empty())
+}
+
+/// `[a.b.c]` table-header style: inside a table first the entries that are not tables (scalars,
+/// arrays — arrays of tables inline), then one header per sub-table
+fn toml_tables(path: &[String], kvs: &[(String, V)], out: &mut String) {
+    for (k, x) in kvs.iter().filter(|(_, x)| *x != V::Null && !toml_is_table(x)) {
+        out.push_str(&format!("{} = {}\n", jstr(k), toml_inline(x)));
+    }
+    for (k, x) in kvs.iter().filter(|(_, x)| toml_is_table(x)) {
+        if let V::Map(m) = x {
+            let mut p = path.to_vec();
+            p.push(jstr(k));
+            out.push_str(&format!("\n[{}]\n", p.join(".")));
+            toml_tables(&p, m, out);
+        }
+    }
+}
+
+/// TOML has no null: null-valued entries are left out. Two styles (chosen by the case's seed):
+/// top-level keys with inline values — any key order is expressible —, or `[table]` headers, the
+/// way TOML configurations are usually written.
+fn to_toml(v: &V, style: u64) -> String {
     match v {
+        V::Map(kvs) if style & 1 == 1 => {
+            let mut out = String::new();
+            toml_tables(&[], kvs, &mut out);
+            out
+        }
         V::Map(kvs) => kvs
             .iter()
             .filter(|(_, x)| *x != V::Null)
@@ -164,58 +192,79 @@ fn to_toml(v: &V) -> String {
     }
 }
 
-fn yaml_plain_ok(s: &str) -> bool {
-    let mut cs = s.chars();
-    let first_ok = matches!(cs.next(), Some(c) if c.is_ascii_alphabetic() || c == '_');
-    let reserved = ["true", "false", "null", "yes", "no", "on", "off", "y", "n"];
-    first_ok && s.chars().all(|c| c.is_ascii_alphanumeric() || c == '_') && !reserved.contains(&s.to_ascii_lowercase().as_str())
+/// may the text stand unquoted in YAML and still be a string. `plain` style: every text that the
+/// YAML 1.2 core schema keeps a string (so `off`, `no`, `y`, `30 seconds`, `INFO` stay unquoted);
+/// otherwise only identifier-like words that no YAML version resolves to something else.
+fn yaml_plain_ok(s: &str, plain: bool) -> bool {
+    let first = match s.chars().next() {
+        Some(c) => c,
+        None => return false,
+    };
+    let lower = s.to_ascii_lowercase();
+    if plain {
+        let core = ["true", "false", "null"];
+        let body_ok = s.chars().all(|c| c.is_ascii_alphanumeric() || c == '_' || c == ' ');
+        let starts_ok = first.is_ascii_alphabetic() || first == '_' || (first.is_ascii_digit() && s.contains(' '));
+        body_ok && starts_ok && !s.ends_with(' ') && !core.contains(&lower.as_str())
+    } else {
+        let reserved = ["true", "false", "null", "yes", "no", "on", "off", "y", "n"];
+        (first.is_ascii_alphabetic() || first == '_') && s.chars().all(|c| c.is_ascii_alphanumeric() || c == '_') && !reserved.contains(&lower.as_str())
+    }
 }
 
-fn yaml_scalar(s: &str) -> String {
-    if yaml_plain_ok(s) {
+fn yaml_scalar(s: &str, plain: bool) -> String {
+    if yaml_plain_ok(s, plain) {
         s.to_owned()
     } else {
         jstr(s)
     }
 }
 
-fn yaml_flow(v: &V) -> String {
+fn yaml_flow(v: &V, plain: bool) -> String {
     match v {
         V::Null => "~".into(),
-        V::Str(s) => yaml_scalar(s),
-        V::Seq(xs) => format!("[{}]", xs.iter().map(yaml_flow).collect::<Vec<_>>().join(", ")),
+        V::Str(s) => yaml_scalar(s, plain),
+        V::Seq(xs) => format!("[{}]", xs.iter().map(|x| yaml_flow(x, plain)).collect::<Vec<_>>().join(", ")),
         V::Map(kvs) => format!(
             "{{{}}}",
-            kvs.iter().map(|(k, x)| format!("{}: {}", jstr(k), yaml_flow(x))).collect::<Vec<_>>().join(", ")
+            kvs.iter().map(|(k, x)| format!("{}: {}", jstr(k), yaml_flow(x, plain))).collect::<Vec<_>>().join(", ")
         ),
         other => to_json(other),
     }
 }
 
-/// block style for maps, flow style for sequences and empty maps
-fn yaml_block(v: &V, indent: usize, out: &mut String) {
+/// block style for maps; sequences in flow style, or (plain style) as block sequences whose map
+/// items are written in flow style
+fn yaml_block(v: &V, indent: usize, plain: bool, out: &mut String) {
     if let V::Map(kvs) = v {
         for (k, x) in kvs {
             let pad = " ".repeat(indent);
             match x {
                 V::Map(inner) if !inner.is_empty() => {
-                    out.push_str(&format!("{}{}:\n", pad, yaml_scalar(k)));
-                    yaml_block(x, indent + 2, out);
+                    out.push_str(&format!("{}{}:\n", pad, yaml_scalar(k, plain)));
+                    yaml_block(x, indent + 2, plain, out);
                 }
-                _ => out.push_str(&format!("{}{}: {}\n", pad, yaml_scalar(k), yaml_flow(x))),
+                V::Seq(items) if plain && !items.is_empty() => {
+                    out.push_str(&format!("{}{}:\n", pad, yaml_scalar(k, plain)));
+                    for it in items {
+                        out.push_str(&format!("{}  - {}\n", pad, yaml_flow(it, plain)));
+                    }
+                }
+                _ => out.push_str(&format!("{}{}: {}\n", pad, yaml_scalar(k, plain), yaml_flow(x, plain))),
             }
         }
     }
 }
 
-fn to_yaml(v: &V) -> String {
+fn to_yaml(v: &V, style: u64) -> String {
+    let plain = (style >> 1) & 1 == 1;
     match v {
         V::Map(kvs) if !kvs.is_empty() => {
             let mut s = String::new();
-            yaml_block(v, 0, &mut s);
+            yaml_block(v, 0, plain, &mut s);
             s
         }
-        other => format!("{}\n", yaml_flow(other)),
+        other => format!("{}\n", yaml_flow(other, plain)),
     }
 }
 
@@ -245,7 +294,7 @@ enum Roll {
 struct Enc {
     kind_explicit: bool,
     json: bool,
-    pattern: bool,
+    pattern: Option<u8>,
 }
 
 #[derive(Clone, Debug)]
@@ -278,14 +327,19 @@ struct Cfg {
     appenders: Vec<App>,
 }
 
-struct Case {
-    cfg: Cfg,
-    probes: Vec<(String, usize)>,
-    seed: u64,
+#[derive(Clone, Debug)]
+struct Inj {
     cls: String,
     path: Vec<Step>,
     payload: Option<V>,
     payload_enc: String,
+}
+
+struct Case {
+    cfg: Cfg,
+    probes: Vec<(String, usize)>,
+    seed: u64,
+    injs: Vec<Inj>,
 }
 
 fn enc_names(xs: &[String]) -> String {
@@ -326,7 +380,7 @@ fn enc_app(a: &App) -> String {
     };
     let enc = match &a.enc {
         None => "-".to_owned(),
-        Some(e) => format!("{}{}{}", enc_bool(e.kind_explicit), enc_bool(e.json), enc_bool(e.pattern)),
+        Some(e) => format!("{}{}{}", enc_bool(e.kind_explicit), enc_bool(e.json), e.pattern.map(|i| i + 1).unwrap_or(0)),
     };
     [
         enc_str(&a.name),
@@ -359,14 +413,26 @@ fn enc_case(c: &Case) -> String {
         .collect();
     let apps: Vec<String> = cfg.appenders.iter().map(enc_app).collect();
     let probes: Vec<String> = c.probes.iter().map(|(t, l)| format!("{}:{}", enc_str(t), l)).collect();
-    let path: Vec<String> = c
-        .path
-        .iter()
-        .map(|s| match s {
-            Step::Key(k) => format!("k{}", enc_str(k)),
-            Step::Idx(i) => format!("#{}", i),
-        })
-        .collect();
+    let enc_path = |path: &[Step]| -> String {
+        let v: Vec<String> = path
+            .iter()
+            .map(|s| match s {
+                Step::Key(k) => format!("k{}", enc_str(k)),
+                Step::Idx(i) => format!("#{}", i),
+            })
+            .collect();
+        enc_list(",", &v)
+    };
+    // several simultaneous injections: classes joined by `+`, paths and payloads by `|`
+    let (cls, path, payload) = if c.injs.is_empty() {
+        ("-".to_owned(), "~".to_owned(), "N".to_owned())
+    } else {
+        (
+            c.injs.iter().map(|i| i.cls.clone()).collect::<Vec<_>>().join("+"),
+            c.injs.iter().map(|i| enc_path(&i.path)).collect::<Vec<_>>().join("|"),
+            c.injs.iter().map(|i| i.payload_enc.clone()).collect::<Vec<_>>().join("|"),
+        )
+    };
     [
         enc_opt(cfg.refresh.as_ref(), |s| enc_str(s)),
         root,
@@ -374,9 +440,9 @@ fn enc_case(c: &Case) -> String {
         enc_list("|", &apps),
         enc_list(",", &probes),
         c.seed.to_string(),
-        c.cls.clone(),
-        enc_list(",", &path),
-        c.payload_enc.clone(),
+        cls,
+        path,
+        payload,
     ]
     .join("\t")
 }
@@ -442,10 +508,10 @@ fn dec_app(s: &str) -> Option<App> {
         None
     } else {
         let b: Vec<char> = f[5].chars().collect();
-        if b.len() != 3 || b.iter().any(|c| *c != '0' && *c != '1') {
+        if b.len() != 3 || b[..2].iter().any(|c| *c != '0' && *c != '1') || !('0'..='3').contains(&b[2]) {
             return None;
         }
-        Some(Enc { kind_explicit: b[0] == '1', json: b[1] == '1', pattern: b[2] == '1' })
+        Some(Enc { kind_explicit: b[0] == '1', json: b[1] == '1', pattern: if b[2] == '0' { None } else { Some(b[2] as u8 - b'1') } })
     };
     let kind: u8 = f[1].parse().ok()?;
     if kind > 2 {
@@ -480,6 +546,9 @@ fn dec_payload(s: &str) -> Option<Option<V>> {
         "Qi" => Some(V::Seq(vec![V::Int(1)])),
         "Qr" => Some(V::Seq(vec![V::Str("info".into()), V::Seq(vec![])])),
         "Qe" => Some(V::Seq(vec![])),
+        // a whole document / a logger section as a sequence (fields by position)
+        "Qd" => Some(V::Seq(vec![V::Null, V::Map(vec![("level".to_owned(), V::Str("warn".into()))])])),
+        "Ql" => Some(V::Seq(vec![V::Str("info".into())])),
         "Qf" => Some(V::Seq(vec![V::Map(vec![
             ("kind".to_owned(), V::Str("threshold".into())),
             ("level".to_owned(), V::Str("info".into())),
@@ -531,25 +600,30 @@ fn dec_case(f: &[&str]) -> Option<Case> {
         }
         probes.push((dec_str(t)?, l));
     }
-    let mut path = vec![];
-    for s in dec_list(',', f[7]) {
-        if let Some(r) = s.strip_prefix('k') {
-            path.push(Step::Key(dec_str(r)?));
-        } else if let Some(r) = s.strip_prefix('#') {
-            path.push(Step::Idx(r.parse().ok()?));
-        } else {
-            return None;
+    let clss: Vec<&str> = f[6].split('+').collect();
+    let (paths, payloads): (Vec<&str>, Vec<&str>) =
+        if clss.len() <= 1 { (vec![f[7]], vec![f[8]]) } else { (f[7].split('|').collect(), f[8].split('|').collect()) };
+    if clss.len() != paths.len() || clss.len() != payloads.len() {
+        return None;
+    }
+    let mut injs = vec![];
+    for i in 0..clss.len() {
+        let mut path = vec![];
+        for s in dec_list(',', paths[i]) {
+            if let Some(r) = s.strip_prefix('k') {
+                path.push(Step::Key(dec_str(r)?));
+            } else if let Some(r) = s.strip_prefix('#') {
+                path.push(Step::Idx(r.parse().ok()?));
+            } else {
+                return None;
+            }
+        }
+        let payload = dec_payload(payloads[i])?;
+        if clss[i] != "-" {
+            injs.push(Inj { cls: clss[i].to_owned(), path, payload, payload_enc: payloads[i].to_owned() });
         }
     }
-    Some(Case {
-        cfg: Cfg { refresh, root, loggers, appenders },
-        probes,
-        seed: f[5].parse().ok()?,
-        cls: f[6].to_owned(),
-        path,
-        payload: dec_payload(f[8])?,
-        payload_enc: f[8].to_owned(),
-    })
+    Some(Case { cfg: Cfg { refresh, root, loggers, appenders }, probes, seed: f[5].parse().ok()?, injs })
 }
 
 // ------------------------------------------------------------------------------------------------
@@ -602,8 +676,8 @@ fn render_app(a: &App) -> V {
             if e.kind_explicit {
                 em.push(("kind".to_owned(), s(if e.json { "json" } else { "pattern" })));
             }
-            if e.pattern {
-                em.push(("pattern".to_owned(), s(PROBE_PATTERN)));
+            if let Some(i) = e.pattern {
+                em.push(("pattern".to_owned(), s(PATTERNS[i as usize])));
             }
             V::Map(em)
         }),
@@ -869,19 +943,158 @@ fn rel_path<'a>(cfg: &'a Cfg, name: &str) -> Option<&'a str> {
     cfg.appenders.iter().find(|a| a.name == name).map(|a| a.path.as_str())
 }
 
-/// sentinel record straight into every file-based appender, then the probes through a `Logger`
-fn drive(config: Config, file_apps: &[String], cfg: &Cfg, probes: &[(String, usize)], base: &str) -> String {
+/// Runs `f` with the process's stdout and stderr (fds 1 and 2) redirected into two files and
+/// returns what reached each. Used for console appenders only: the protocol channel itself is
+/// never written to while redirected (the caller's buffered writer is flushed by `main`, later).
+fn capture_console(dir: &str, f: impl FnOnce()) -> (String, String) {
+    use std::io::Write;
+    use std::os::unix::io::AsRawFd;
+    let (po, pe) = (format!("{}/cap.out", dir), format!("{}/cap.err", dir));
+    let fo = std::fs::File::create(&po).unwrap();
+    let fe = std::fs::File::create(&pe).unwrap();
+    let _ = std::io::stdout().flush();
+    let _ = std::io::stderr().flush();
+    unsafe {
+        let so = libc::dup(1);
+        let se = libc::dup(2);
+        libc::dup2(fo.as_raw_fd(), 1);
+        libc::dup2(fe.as_raw_fd(), 2);
+        f();
+        let _ = std::io::stdout().flush();
+        let _ = std::io::stderr().flush();
+        libc::dup2(so, 1);
+        libc::dup2(se, 2);
+        libc::close(so);
+        libc::close(se);
+    }
+    drop(fo);
+    drop(fe);
+    (std::fs::read_to_string(&po).unwrap_or_default(), std::fs::read_to_string(&pe).unwrap_or_default())
+}
+
+/// a Rust string literal at the start of `s` (Debug output): its value and the rest
+fn take_literal(s: &str) -> Option<(String, &str)> {
+    let b: Vec<char> = s.chars().collect();
+    if b.first() != Some(&'"') {
+        return None;
+    }
+    let mut j = 1;
+    while j < b.len() {
+        if b[j] == '\\' {
+            j += 2;
+            continue;
+        }
+        if b[j] == '"' {
+            let lit: String = b[1..j].iter().collect();
+            let consumed: usize = b[..=j].iter().map(|c| c.len_utf8()).sum();
+            return Some((unescape_debug(&lit), &s[consumed..]));
+        }
+        j += 1;
+    }
+    None
+}
+
+fn after<'a>(s: &'a str, pat: &str) -> Option<&'a str> {
+    s.find(pat).map(|i| &s[i + pat.len()..])
+}
+
+fn take_number(s: &str) -> String {
+    s.chars().take_while(|c| c.is_ascii_digit() || *c == '-').collect()
+}
+
+fn strip_base<'a>(p: &'a str, base: &str) -> &'a str {
+    p.strip_prefix(base).map(|r| r.strip_prefix('/').unwrap_or(r)).unwrap_or(p)
+}
+
+/// The parameters of a constructed appender, read off its `Debug` output (every component of
+/// log4rs derives or implements `Debug` with its configuration fields). `console_out`: where the
+/// sentinel record of a console appender went.
+fn params_of(name: &str, dbg: &str, base: &str, console_out: &str) -> String {
+    let enc = match after(dbg, "encoder: ") {
+        Some(r) if r.starts_with("JsonEncoder") => "J".to_owned(),
+        Some(r) => match after(r, "pattern: ").and_then(take_literal) {
+            Some((p, _)) => format!("P{}", enc_str(&p)),
+            None => "?".to_owned(),
+        },
+        None => "?".to_owned(),
+    };
+    if dbg.starts_with("ConsoleAppender") {
+        let do_write = after(dbg, "do_write: ").map(|r| r.starts_with("true")).unwrap_or(false);
+        // the streams of a check run are not terminals: do_write = !tty_only
+        return format!("{}/c/{}/{}/{}", enc_str(name), enc_bool(!do_write), enc, console_out);
+    }
+    let path = after(dbg, "path: ").and_then(take_literal).map(|x| x.0).unwrap_or_default();
+    let path = enc_str(strip_base(&path, base));
+    if dbg.starts_with("FileAppender") {
+        return format!("{}/f/{}/{}", enc_str(name), path, enc);
+    }
+    let append = after(dbg, "append: ").map(|r| r.starts_with("true")).unwrap_or(false);
+    let trig = match after(dbg, "trigger: ") {
+        Some(r) if r.starts_with("SizeTrigger") => format!("s{}", take_number(after(r, "limit: ").unwrap_or(""))),
+        Some(r) if r.starts_with("OnStartUpTrigger") => format!("o{}", take_number(after(r, "min_size: ").unwrap_or(""))),
+        Some(r) if r.starts_with("TimeTrigger") => {
+            let iv = after(r, "interval: ").unwrap_or("");
+            let unit: String = iv.chars().take_while(|c| c.is_ascii_alphabetic()).collect();
+            let n = take_number(after(iv, "(").unwrap_or(""));
+            let m = after(r, "modulate: ").map(|x| x.starts_with("true")).unwrap_or(false);
+            let d = take_number(after(r, "max_random_delay: ").unwrap_or(""));
+            format!("t{}:{}:{}:{}", unit.to_ascii_lowercase(), n, enc_bool(m), d)
+        }
+        _ => "?".to_owned(),
+    };
+    let roll = match after(dbg, "roller: ") {
+        Some(r) if r.starts_with("DeleteRoller") => "d".to_owned(),
+        Some(r) if r.starts_with("FixedWindowRoller") => {
+            let pat = after(r, "pattern: ").and_then(take_literal).map(|x| x.0).unwrap_or_default();
+            format!(
+                "w{}:{}:{}",
+                take_number(after(r, "base: ").unwrap_or("")),
+                take_number(after(r, "count: ").unwrap_or("")),
+                enc_str(strip_base(&pat, base))
+            )
+        }
+        _ => "?".to_owned(),
+    };
+    format!("{}/r/{}/{}/{}/{}/{}", enc_str(name), path, enc_bool(append), enc, trig, roll)
+}
+
+/// Parameters of every appender (Debug output + where a console appender writes), then a sentinel
+/// record straight into every file-based appender, then the probes through a `Logger`.
+fn drive(config: Config, file_apps: &[String], cfg: &Cfg, probes: &[(String, usize)], base: &str, dir: &str) -> String {
+    let mut params: Vec<(String, String)> = vec![];
+    for a in config.appenders() {
+        let dbg = format!("{:?}", a.appender());
+        let mut out = "-".to_owned();
+        if dbg.starts_with("ConsoleAppender") {
+            let (o, e) = capture_console(dir, || {
+                let _ = a.appender().append(&Record::builder().args(format_args!("S")).level(Level::Error).target("sentinel").build());
+                a.appender().flush();
+            });
+            out = match (o.is_empty(), e.is_empty()) {
+                (true, true) => "-".to_owned(),
+                (false, true) => "o".to_owned(),
+                (true, false) => "e".to_owned(),
+                _ => "oe".to_owned(),
+            };
+        }
+        params.push((a.name().to_owned(), params_of(a.name(), &dbg, base, &out)));
+    }
+    params.sort();
     for a in config.appenders() {
         if file_apps.iter().any(|n| n == a.name()) {
             let _ = a.appender().append(&Record::builder().args(format_args!("S")).level(Level::Error).target("sentinel").build());
         }
     }
-    let logger = log4rs::Logger::new(config);
-    for (i, (t, l)) in probes.iter().enumerate() {
-        logger.log(&Record::builder().args(format_args!("{}", i)).level(level_of(*l)).target(t).build());
-    }
-    Log::flush(&logger);
-    drop(logger);
+    // console appenders that really write would corrupt the protocol channel: keep fds 1 and 2
+    // redirected while the probes run
+    let (_o, _e) = capture_console(dir, || {
+        let logger = log4rs::Logger::new(config);
+        for (i, (t, l)) in probes.iter().enumerate() {
+            logger.log(&Record::builder().args(format_args!("{}", i)).level(level_of(*l)).target(t).build());
+        }
+        Log::flush(&logger);
+        drop(logger);
+    });
     let mut files = vec![];
     let mut w = vec![];
     for n in file_apps {
@@ -912,10 +1125,15 @@ fn drive(config: Config, file_apps: &[String], cfg: &Cfg, probes: &[(String, usi
         files.push(format!("{}:{}:{}", enc_str(n), class, old));
         w.push(format!("{}:{}", enc_str(n), enc_list(".", &idx)));
     }
-    format!("files={} w={}", enc_list(";", &files), enc_list(";", &w))
+    format!(
+        "params={} files={} w={}",
+        enc_list(";", &params.into_iter().map(|x| x.1).collect::<Vec<_>>()),
+        enc_list(";", &files),
+        enc_list(";", &w)
+    )
 }
 
-/// encoder format of a line and its message: J json, P the probe pattern, D the default pattern
+/// encoder format of a line and its message: J json, P a three-token pattern, D the default pattern
 fn classify(line: &str) -> (&'static str, String) {
     if line.starts_with('{') {
         if let Ok(serde_json::Value::Object(o)) = serde_json::from_str::<serde_json::Value>(line) {
@@ -935,17 +1153,18 @@ fn classify(line: &str) -> (&'static str, String) {
     ("?", "?".into())
 }
 
+fn render_text(fmt: &str, d: &V, style: u64) -> String {
+    match fmt {
+        "yaml" => to_yaml(d, style),
+        "json" => to_json(d),
+        _ => to_toml(d, style),
+    }
+}
+
 fn run_format(fmt: &str, doc: &V, case: &Case, dir: &str) -> String {
     let base = format!("{}/{}", dir, &fmt[..1]);
     std::fs::create_dir_all(&base).unwrap();
-    let text = {
-        let d = prefix_paths(doc, &base);
-        match fmt {
-            "yaml" => to_yaml(&d),
-            "json" => to_json(&d),
-            _ => to_toml(&d),
-        }
-    };
+    let text = render_text(fmt, &prefix_paths(doc, &base), case.seed);
     let file = format!("{}/cfg.{}", dir, fmt);
     std::fs::write(&file, &text).unwrap();
     set_clock(T0);
@@ -969,17 +1188,27 @@ fn run_format(fmt: &str, doc: &V, case: &Case, dir: &str) -> String {
     // previous content of the plain file appenders' files
     for a in &case.cfg.appenders {
         if a.kind == 1 && !a.path.is_empty() {
-            let _ = std::fs::write(format!("{}/{}", base, a.path), "old\n");
+            let f = format!("{}/{}", base, a.path);
+            if let Some(parent) = std::path::Path::new(&f).parent() {
+                let _ = std::fs::create_dir_all(parent);
+            }
+            let _ = std::fs::write(f, "old\n");
         }
     }
     set_clock(T0);
     let cfg = case.cfg.clone();
     let probes = case.probes.clone();
-    let cls = case.cls.clone();
+    let with_prog = case.injs.iter().all(|i| i.cls == "null");
     let (text2, fmt2, file2, base2, dir2) = (text.clone(), fmt.to_owned(), file.clone(), base.clone(), dir.to_owned());
     let lossy = guarded(move || {
-        // the public entry point
-        let via_file = match log4rs::config::load_config_file(&file2, Deserializers::default()) {
+        // the public entry point; what it REPORTS goes to stderr (`handle_error`), one line
+        // `log4rs: …` per error: count them
+        let mut loaded = None;
+        let (_, reported) = capture_console(&dir2, || {
+            loaded = Some(log4rs::config::load_config_file(&file2, Deserializers::default()));
+        });
+        let n_reported = reported.lines().filter(|l| l.starts_with("log4rs: ")).count();
+        let via_file = match loaded.unwrap() {
             Err(_) => None,
             Ok(c) => Some(summarize(&c, None, &[], &[], &cfg).head),
         };
@@ -1009,8 +1238,8 @@ fn run_format(fmt: &str, doc: &V, case: &Case, dir: &str) -> String {
             return "lossy=LOADFILE-DIFFERS".to_owned();
         }
         set_clock(T0 - 3600);
-        let behaviour = drive(config, &sum.file_apps, &cfg, &probes, &base2);
-        let prog = if cls == "-" || cls == "null" {
+        let behaviour = drive(config, &sum.file_apps, &cfg, &probes, &base2, &dir2);
+        let prog = if with_prog {
             set_clock(T0);
             let pb = programmatic(&cfg, &probes, &dir2);
             if pb == behaviour {
@@ -1021,7 +1250,7 @@ fn run_format(fmt: &str, doc: &V, case: &Case, dir: &str) -> String {
         } else {
             "skip".to_owned()
         };
-        format!("lossy=ok {} {} prog={}", sum.head, behaviour, prog)
+        format!("lossy=ok {} rep={} {} prog={}", sum.head, n_reported, behaviour, prog)
     });
     let lossy = match lossy {
         Ok(s) => s,
@@ -1030,29 +1259,72 @@ fn run_format(fmt: &str, doc: &V, case: &Case, dir: &str) -> String {
     format!("{} strict={}", lossy, strict)
 }
 
-/// the equivalent programmatic configuration of a (valid) logical configuration, driven by the
-/// same sentinel and probes; files under `<dir>/p`
+/// the numbers the generator's size and interval texts stand for — written down here, NOT obtained
+/// from the crate's own parser, so that the programmatic twin is independent of it
+const SIZE_TABLE: &[(&str, u64)] = &[
+    ("10 mb", 10 * 1024 * 1024),
+    ("1 GB", 1 << 30),
+    ("500 kb", 500 * 1024),
+    ("2mib", 2 << 20),
+    ("1048576", 1048576),
+    ("3 Tb", 3 << 40),
+    ("700000 b", 700000),
+    ("16 EB", 0),
+];
+const INTERVAL_TABLE: &[(&str, &str, i64)] = &[
+    ("1 day", "day", 1),
+    ("2 hours", "hour", 2),
+    ("1 week", "week", 1),
+    ("1 month", "month", 1),
+    ("1 year", "year", 1),
+    ("30 minutes", "minute", 30),
+    ("5 seconds", "second", 5),
+    ("3600", "second", 3600),
+    ("2 Days", "day", 2),
+    ("10 years", "year", 10),
+];
+
+fn interval_of(unit: &str, n: i64) -> TimeTriggerInterval {
+    match unit {
+        "second" => TimeTriggerInterval::Second(n),
+        "minute" => TimeTriggerInterval::Minute(n),
+        "hour" => TimeTriggerInterval::Hour(n),
+        "day" => TimeTriggerInterval::Day(n),
+        "week" => TimeTriggerInterval::Week(n),
+        "month" => TimeTriggerInterval::Month(n),
+        _ => TimeTriggerInterval::Year(n),
+    }
+}
+
+/// The equivalent programmatic configuration of a (valid) logical configuration — the same
+/// components built through the public builders with the numbers, patterns, targets and flags the
+/// logical configuration states — driven by the same sentinel and probes; files under `<dir>/p`.
+/// An appender whose component builder refuses it is not part of the configuration.
 fn programmatic(cfg: &Cfg, probes: &[(String, usize)], dir: &str) -> String {
     let base = format!("{}/p", dir);
     let _ = std::fs::remove_dir_all(&base);
     std::fs::create_dir_all(&base).unwrap();
     let lvl = |t: &str| LevelFilter::from_str(t).unwrap_or(LevelFilter::Off);
     let mut appenders = vec![];
+    let mut built: Vec<String> = vec![];
     for a in &cfg.appenders {
         let enc: Option<Box<dyn Encode>> = a.enc.as_ref().map(|e| -> Box<dyn Encode> {
             if e.json {
                 Box::new(JsonEncoder::new())
-            } else if e.pattern {
-                Box::new(PatternEncoder::new(PROBE_PATTERN))
+            } else if let Some(i) = e.pattern {
+                Box::new(PatternEncoder::new(PATTERNS[i as usize]))
             } else {
                 Box::new(PatternEncoder::default())
             }
         });
         let path = format!("{}/{}", base, a.path);
-        if a.kind == 1 {
+        if a.kind == 1 && !a.path.is_empty() {
+            if let Some(parent) = std::path::Path::new(&path).parent() {
+                let _ = std::fs::create_dir_all(parent);
+            }
             let _ = std::fs::write(&path, "old\n");
         }
-        let boxed: Box<dyn Append> = match a.kind {
+        let boxed: Option<Box<dyn Append>> = match a.kind {
             0 => {
                 let mut b = ConsoleAppender::builder();
                 if let Some(t) = a.target {
@@ -1064,7 +1336,7 @@ fn programmatic(cfg: &Cfg, probes: &[(String, usize)], dir: &str) -> String {
                 if let Some(e) = enc {
                     b = b.encoder(e);
                 }
-                Box::new(b.build())
+                Some(Box::new(b.build()))
             }
             1 => {
                 let mut b = FileAppender::builder();
@@ -1074,7 +1346,7 @@ fn programmatic(cfg: &Cfg, probes: &[(String, usize)], dir: &str) -> String {
                 if let Some(e) = enc {
                     b = b.encoder(e);
                 }
-                Box::new(b.build(&path).unwrap())
+                b.build(&path).ok().map(|x| Box::new(x) as Box<dyn Append>)
             }
             _ => {
                 let mut b = RollingFileAppender::builder();
@@ -1084,38 +1356,56 @@ fn programmatic(cfg: &Cfg, probes: &[(String, usize)], dir: &str) -> String {
                 if let Some(e) = enc {
                     b = b.encoder(e);
                 }
-                // integer-form numbers go into the programmatic components as they are; string
-                // forms (all far above any record size) are represented by a large limit
-                let trigger: Box<dyn log4rs::append::rolling_file::policy::compound::trigger::Trigger> = match &a.trig {
-                    Trig::Size(Sc::Int(n)) => Box::new(SizeTrigger::new(*n as u64)),
-                    Trig::Size(Sc::Str(_)) => Box::new(SizeTrigger::new(1 << 40)),
-                    Trig::OnStartUp(m) => Box::new(OnStartUpTrigger::new(m.unwrap_or(1))),
+                let trigger: Option<Box<dyn log4rs::append::rolling_file::policy::compound::trigger::Trigger>> = match &a.trig {
+                    Trig::Size(Sc::Int(n)) => u64::try_from(*n).ok().map(|n| Box::new(SizeTrigger::new(n)) as _),
+                    Trig::Size(Sc::Str(t)) => SIZE_TABLE.iter().find(|e| e.0 == t).map(|e| Box::new(SizeTrigger::new(e.1)) as _),
+                    Trig::OnStartUp(m) => Some(Box::new(OnStartUpTrigger::new(m.unwrap_or(1)))),
                     Trig::Time(i, m, d) => {
                         let interval = match i {
-                            Sc::Int(n) => TimeTriggerInterval::Second(*n as i64),
-                            Sc::Str(_) => TimeTriggerInterval::Day(1),
+                            Sc::Int(n) => i64::try_from(*n).ok().filter(|n| *n >= 0).map(TimeTriggerInterval::Second),
+                            Sc::Str(t) => INTERVAL_TABLE.iter().find(|e| e.0 == t).map(|e| interval_of(e.1, e.2)),
                         };
-                        Box::new(TimeTrigger::new(TimeTrigger::verif_config(interval, m.unwrap_or(false), d.unwrap_or(0))))
+                        interval.map(|iv| Box::new(TimeTrigger::new(TimeTrigger::verif_config(iv, m.unwrap_or(false), d.unwrap_or(0)))) as _)
                     }
                 };
-                let roller: Box<dyn log4rs::append::rolling_file::policy::compound::roll::Roll> = match &a.roll {
-                    Roll::Delete => Box::new(DeleteRoller::new()),
+                let roller: Option<Box<dyn log4rs::append::rolling_file::policy::compound::roll::Roll>> = match &a.roll {
+                    Roll::Delete => Some(Box::new(DeleteRoller::new())),
                     Roll::Window(b, n) => {
                         let mut rb = FixedWindowRoller::builder();
+                        let mut ok = u32::try_from(*n).is_ok();
                         if let Some(b) = b {
-                            rb = rb.base(*b as u32);
+                            match u32::try_from(*b) {
+                                Ok(b) => rb = rb.base(b),
+                                Err(_) => ok = false,
+                            }
                         }
-                        Box::new(rb.build(&format!("{}.{{}}", path), *n as u32).unwrap())
+                        if ok {
+                            rb.build(&format!("{}.{{}}", path), *n as u32).ok().map(|x| Box::new(x) as _)
+                        } else {
+                            None
+                        }
                     }
                 };
-                let policy = CompoundPolicy::new(trigger, roller);
-                Box::new(b.build(&path, Box::new(policy)).unwrap())
+                match (trigger, roller) {
+                    (Some(t), Some(r)) => b.build(&path, Box::new(CompoundPolicy::new(t, r))).ok().map(|x| Box::new(x) as Box<dyn Append>),
+                    _ => None,
+                }
             }
         };
+        let boxed = match boxed {
+            Some(b) => b,
+            None => continue,
+        };
+        let levels: Option<Vec<LevelFilter>> = a.filters.clone().unwrap_or_default().iter().map(|f| LevelFilter::from_str(f).ok()).collect();
+        let levels = match levels {
+            Some(l) => l,
+            None => continue,
+        };
         let mut ab = Appender::builder();
-        for f in a.filters.clone().unwrap_or_default() {
-            ab = ab.filter(Box::new(ThresholdFilter::new(lvl(&f))));
+        for f in levels {
+            ab = ab.filter(Box::new(ThresholdFilter::new(f)));
         }
+        built.push(a.name.clone());
         appenders.push(ab.build(a.name.clone(), boxed));
     }
     let (rl, ra) = match &cfg.root {
@@ -1133,10 +1423,54 @@ fn programmatic(cfg: &Cfg, probes: &[(String, usize)], dir: &str) -> String {
         })
         .collect();
     let (config, _) = Config::builder().appenders(appenders).loggers(loggers).build_lossy(Root::builder().appenders(ra).build(rl));
-    let mut file_apps: Vec<String> = cfg.appenders.iter().filter(|a| a.kind != 0).map(|a| a.name.clone()).collect();
+    let mut file_apps: Vec<String> = cfg.appenders.iter().filter(|a| a.kind != 0 && built.contains(&a.name)).map(|a| a.name.clone()).collect();
     file_apps.sort();
     set_clock(T0 - 3600);
-    drive(config, &file_apps, cfg, probes, &base)
+    drive(config, &file_apps, cfg, probes, &base, dir)
+}
+
+/// class `dupkey`: a second entry with the key at the end of the path (mirror of `addDup`)
+fn add_dup(path: &[Step], x: &V, v: &mut V) {
+    if let (Some(Step::Key(k)), V::Map(kvs)) = (path.first(), v) {
+        if path.len() == 1 {
+            kvs.push((k.clone(), x.clone()));
+        } else {
+            for kv in kvs.iter_mut() {
+                if &kv.0 == k {
+                    add_dup(&path[1..], x, &mut kv.1);
+                }
+            }
+        }
+    }
+}
+
+/// class `ext`: the YAML rendering stored under an arbitrary file name, `load_config_file` only
+fn run_ext(fname: &str, doc: &V, case: &Case, dir: &str) -> String {
+    let base = format!("{}/y", dir);
+    std::fs::create_dir_all(&base).unwrap();
+    let text = to_yaml(&prefix_paths(doc, &base), case.seed);
+    let file = format!("{}/{}", dir, fname);
+    std::fs::write(&file, &text).unwrap();
+    set_clock(T0);
+    let cfg = case.cfg.clone();
+    match guarded(move || match log4rs::config::load_config_file(&file, Deserializers::default()) {
+        Ok(c) => {
+            let h = summarize(&c, None, &[], &[], &cfg).head;
+            // head = "rr=- root=… loggers=… apps=… aerr=~ berr=~"
+            let h = h.strip_prefix("rr=- ").unwrap_or(&h).to_owned();
+            let h = h.strip_suffix(" aerr=~ berr=~").unwrap_or(&h).to_owned();
+            format!("ext=ok {}", h)
+        }
+        Err(e) => match e.downcast_ref::<log4rs::config::FormatError>() {
+            Some(log4rs::config::FormatError::UnsupportedFormat(_)) => "ext=err:unsupported".to_owned(),
+            Some(log4rs::config::FormatError::UnknownFormat) => "ext=err:unknown".to_owned(),
+            Some(_) => "ext=err:feature".to_owned(),
+            None => "ext=err:parse".to_owned(),
+        },
+    }) {
+        Ok(s) => s,
+        Err(_) => "ext=PANIC".to_owned(),
+    }
 }
 
 pub fn exec(fields: &[&str]) -> String {
@@ -1150,10 +1484,29 @@ pub fn exec(fields: &[&str]) -> String {
     let _ = std::fs::remove_dir_all(&dir);
     std::fs::create_dir_all(&dir).unwrap();
     let mut doc = render(&case.cfg);
-    if case.cls != "-" {
-        modify_at(&case.path, &case.payload, &mut doc);
+    for i in &case.injs {
+        if i.cls == "ext" {
+            continue;
+        }
+        if i.cls == "dupkey" {
+            if let Some(x) = &i.payload {
+                add_dup(&i.path, x, &mut doc);
+            }
+        } else {
+            modify_at(&i.path, &i.payload, &mut doc);
+        }
     }
     let doc = shuffle(case.seed, doc);
+    if let Some(i) = case.injs.iter().find(|i| i.cls == "ext") {
+        let fname = match &i.payload {
+            Some(V::Str(s)) => s.clone(),
+            _ => String::new(),
+        };
+        let r = run_ext(&fname, &doc, &case, &dir);
+        log4rs::verif_hooks::set_now(None);
+        let _ = std::fs::remove_dir_all(&dir);
+        return r;
+    }
     let y = run_format("yaml", &doc, &case, &dir);
     let j = run_format("json", &doc, &case, &dir);
     let t = run_format("toml", &doc, &case, &dir);
@@ -1170,9 +1523,13 @@ pub fn exec(fields: &[&str]) -> String {
 // generation
 // ------------------------------------------------------------------------------------------------
 const LEVELS: &[&str] = &["off", "error", "warn", "info", "debug", "trace"];
-const APP_NAMES: &[&str] = &["a", "b", "c", "d", "e_1", "\u{e4}pp", "x::y", "A"];
-const COMPONENTS: &[&str] = &["x", "y", "z", "x1"];
-const REFRESH: &[&str] = &["30 seconds", "5 min", "1h", "2 days", "500ms", "1 week", "90s", "1 month", "2years", " 7 d ", "15 us"];
+const APP_NAMES: &[&str] = &["a", "b", "c", "d", "e_1", "\u{e4}pp", "x::y", "A", "\u{65e5}\u{5fd7}", "no", "off"];
+const COMPONENTS: &[&str] = &["x", "y", "z", "x1", "\u{fc}b"];
+const REFRESH: &[&str] = &[
+    "30 seconds", "5 min", "1h", "2 days", "500ms", "1 week", "90s", "1 month", "2years", " 7 d ", "15 us",
+    // several spans, and the u64 boundary of the seconds count
+    "1h 30m", "2min 15s 10ms", "1day 1h1m", "18446744073709551615s", "18446744073709551615 ns", "584542046090 years", "18446744073709551615s 999999999ns", "1 0 s",
+];
 const SIZES: &[&str] = &["10 mb", "1 GB", "500 kb", "2mib", "1048576", "3 Tb", "700000 b"];
 const INTERVALS: &[&str] = &["1 day", "2 hours", "1 week", "1 month", "1 year", "30 minutes", "5 seconds", "3600", "2 Days", "10 years"];
 
@@ -1225,9 +1582,9 @@ fn refs(rng: &mut Rng, apps: &[App], ghost: bool) -> Vec<String> {
 
 fn gen_enc(rng: &mut Rng) -> Enc {
     if rng.chance(1, 3) {
-        Enc { kind_explicit: true, json: true, pattern: false }
+        Enc { kind_explicit: true, json: true, pattern: None }
     } else {
-        Enc { kind_explicit: rng.chance(1, 2), json: false, pattern: rng.chance(2, 3) }
+        Enc { kind_explicit: rng.chance(1, 2), json: false, pattern: if rng.chance(2, 3) { Some(rng.below(PATTERNS.len() as u64) as u8) } else { None } }
     }
 }
 
@@ -1244,7 +1601,11 @@ fn boundary(rng: &mut Rng, large: u64) -> u64 {
 fn gen_trig(rng: &mut Rng, which: u64) -> Trig {
     match which {
         0 => Trig::Size(match rng.below(6) {
-            0 | 1 => Sc::Int(boundary(rng, i64::MAX as u64) as i128),
+            // u64::MAX: a valid limit that TOML cannot write (its integers are i64)
+            0 | 1 => {
+                let large = if rng.chance(1, 3) { u64::MAX } else { i64::MAX as u64 };
+                Sc::Int(boundary(rng, large) as i128)
+            }
             2 => Sc::Int(rng.range(100_000, 1 << 40) as i128),
             _ => Sc::Str((*rng.pick(SIZES)).to_owned()),
         }),
@@ -1265,9 +1626,10 @@ fn gen_roll(rng: &mut Rng, window: bool) -> Roll {
     if window {
         let base = opt(rng, |r| if r.chance(1, 2) { boundary(r, u32::MAX as u64) } else { r.range(0, 3) });
         let mut count = if rng.chance(1, 2) { boundary(rng, u32::MAX as u64) } else { rng.range(0, 5) };
-        // valid configurations keep the window representable (base + count - 1 <= u32::MAX); the
-        // unrepresentable one is an injection (class ctor)
-        if count > 0 && base.unwrap_or(0) + (count - 1) > u32::MAX as u64 {
+        // most configurations keep the window representable (base + count - 1 <= u32::MAX); an
+        // unrepresentable one is a logical configuration whose appender cannot be built: it is
+        // reported and dropped, by the document loader and by the programmatic builder alike
+        if count > 0 && base.unwrap_or(0) + (count - 1) > u32::MAX as u64 && !rng.chance(1, 4) {
             count = u32::MAX as u64 - base.unwrap_or(0) + 1;
         }
         Roll::Window(base, count)
@@ -1305,10 +1667,12 @@ fn gen_app_raw(rng: &mut Rng, name: &str, idx: usize, kind: u8) -> App {
             2 => Some(vec![level_text(rng)]),
             _ => Some(vec![level_text(rng), level_text(rng)]),
         },
-        path: format!("f{}.log", idx),
-        flag: if kind == 0 { Some(true) } else { opt(rng, |r| r.chance(1, 2)) },
+        path: if rng.chance(1, 6) { format!("l\u{f6}g {}/f.log", idx) } else { format!("f{}.log", idx) },
+        // console appenders write for real (tty_only absent or false): the harness keeps fds 1 and 2
+        // redirected while they do
+        flag: opt(rng, |r| r.chance(1, 2)),
         enc: opt(rng, gen_enc),
-        target: if kind == 0 { Some(true) } else { None },
+        target: if kind == 0 { opt(rng, |r| r.chance(1, 2)) } else { None },
         policy_kind: rng.chance(1, 2),
         trig: {
             let w = rng.below(3);
@@ -1444,10 +1808,61 @@ fn injections(cfg: &Cfg) -> Vec<(&'static str, Vec<Step>, String)> {
     unknown_keys(&mut v, &[], &["refresh_rate", "root", "appenders", "loggers"]);
     v.push(("typ", vec![k("refresh_rate")], "I30".into()));
     v.push(("typ", vec![k("refresh_rate")], st("30")));
+    v.push(("typ", vec![k("refresh_rate")], st("1.5 fortnights")));
+    // one nanosecond more than u64::MAX seconds and 999999999 ns: not representable
+    v.push(("durmax", vec![k("refresh_rate")], st("18446744073709551615s 1000000000ns")));
+    v.push(("durmax", vec![k("refresh_rate")], st("18446744073709551615s 999999999ns 1ns")));
     v.push(("typ", vec![k("appenders")], "Qi".into()));
     v.push(("typ", vec![k("loggers")], st("x")));
     v.push(("typ", vec![k("root")], "I1".into()));
     v.push(("seqs", vec![k("root")], "Qr".into()));
+    // … at document level (JSON: a top-level array) and at logger level
+    v.push(("seqs", vec![], "Qd".into()));
+    for l in &cfg.loggers {
+        v.push(("seqs", vec![k("loggers"), k(&l.name)], "Ql".into()));
+    }
+    // `null` where a section (not an Option field) is expected — the YAML way of writing an empty
+    // section; TOML cannot write it, the key is then simply absent there. Only for keys the
+    // logical configuration does not have.
+    if cfg.root.is_none() {
+        v.push(("nullsec", vec![k("root")], "N".into()));
+    }
+    if cfg.appenders.is_empty() {
+        v.push(("nullsec", vec![k("appenders")], "N".into()));
+    }
+    if cfg.loggers.is_empty() {
+        v.push(("nullsec", vec![k("loggers")], "N".into()));
+    }
+    if let Some((l, a)) = &cfg.root {
+        if l.is_none() {
+            v.push(("nullsec", vec![k("root"), k("level")], "N".into()));
+        }
+        if a.is_none() {
+            v.push(("nullsec", vec![k("root"), k("appenders")], "N".into()));
+        }
+        // a duplicated key in a derived struct: serde's `duplicate field` (YAML, JSON), a parse error (TOML)
+        v.push(("dupkey", vec![k("root")], "M".into()));
+        if l.is_some() {
+            v.push(("dupkey", vec![k("root"), k("level")], st("trace")));
+        }
+    }
+    if cfg.refresh.is_some() {
+        v.push(("dupkey", vec![k("refresh_rate")], st("5s")));
+    }
+    for l in &cfg.loggers {
+        v.push(("dupkey", vec![k("loggers"), k(&l.name), k("level")], st("off")));
+        if l.appenders.is_none() {
+            v.push(("nullsec", vec![k("loggers"), k(&l.name), k("appenders")], "N".into()));
+        }
+        if l.additive.is_none() {
+            v.push(("nullsec", vec![k("loggers"), k(&l.name), k("additive")], "N".into()));
+        }
+    }
+    for a in &cfg.appenders {
+        if a.filters.is_none() {
+            v.push(("nullsec", app_path(a, &["filters"]), "N".into()));
+        }
+    }
     if cfg.refresh.is_none() {
         v.push(("null", vec![k("refresh_rate")], "N".into()));
     }
@@ -1496,7 +1911,7 @@ fn injections(cfg: &Cfg) -> Vec<(&'static str, Vec<Step>, String)> {
             v.push(("typ", app_path(a, &["encoder", "kind"]), "I1".into()));
             if !e.json {
                 v.push(("typ", app_path(a, &["encoder", "pattern"]), "I1".into()));
-                if !e.pattern {
+                if e.pattern.is_none() {
                     v.push(("null", app_path(a, &["encoder", "pattern"]), "N".into()));
                 }
             }
@@ -1611,13 +2026,39 @@ fn injections(cfg: &Cfg) -> Vec<(&'static str, Vec<Step>, String)> {
     v
 }
 
-fn emit_case(emit: &mut dyn FnMut(String), cfg: &Cfg, probes: &[(String, usize)], seed: u64, inj: Option<&(&'static str, Vec<Step>, String)>) {
-    let (cls, path, payload_enc) = match inj {
-        None => ("-".to_owned(), vec![], "N".to_owned()),
-        Some((c, p, e)) => ((*c).to_owned(), p.clone(), e.clone()),
-    };
-    let c = Case { cfg: cfg.clone(), probes: probes.to_vec(), seed, cls, path, payload: None, payload_enc };
+type InjSpec = (&'static str, Vec<Step>, String);
+
+fn emit_multi(emit: &mut dyn FnMut(String), cfg: &Cfg, probes: &[(String, usize)], seed: u64, injs: &[InjSpec]) {
+    let injs = injs.iter().map(|(c, p, e)| Inj { cls: (*c).to_owned(), path: p.clone(), payload: None, payload_enc: e.clone() }).collect();
+    let c = Case { cfg: cfg.clone(), probes: probes.to_vec(), seed, injs };
     emit(enc_case(&c));
+}
+
+fn emit_case(emit: &mut dyn FnMut(String), cfg: &Cfg, probes: &[(String, usize)], seed: u64, inj: Option<&InjSpec>) {
+    match inj {
+        None => emit_multi(emit, cfg, probes, seed, &[]),
+        Some(i) => emit_multi(emit, cfg, probes, seed, &[i.clone()]),
+    }
+}
+
+fn same_step(a: &Step, b: &Step) -> bool {
+    match (a, b) {
+        (Step::Key(x), Step::Key(y)) => x == y,
+        (Step::Idx(x), Step::Idx(y)) => x == y,
+        _ => false,
+    }
+}
+
+/// two injections can be applied together when neither sits at or below the other's target (the
+/// second would then hit something the first removed or replaced) and neither touches the file
+/// name or the document as a whole
+fn compatible(a: &InjSpec, b: &InjSpec) -> bool {
+    let n = a.1.len().min(b.1.len());
+    let prefix = (0..n).all(|i| same_step(&a.1[i], &b.1[i]));
+    // (`durmax` panics the parser: what else is wrong with the document is then seen or not
+    // depending on the key order — it stays a single injection)
+    let solo = ["ext", "seqs", "durmax"];
+    !prefix && !solo.contains(&a.0) && !solo.contains(&b.0) && !a.1.is_empty() && !b.1.is_empty()
 }
 
 /// one configuration that has every section, for the deterministic injection block
@@ -1634,8 +2075,8 @@ fn full_cfg() -> Cfg {
         trig,
         roll,
     };
-    let p = Some(Enc { kind_explicit: false, json: false, pattern: true });
-    let j = Some(Enc { kind_explicit: true, json: true, pattern: false });
+    let p = Some(Enc { kind_explicit: false, json: false, pattern: Some(0) });
+    let j = Some(Enc { kind_explicit: true, json: true, pattern: None });
     Cfg {
         refresh: None,
         root: Some((Some("info".into()), Some(vec!["a".into(), "r1".into()]))),
@@ -1649,7 +2090,7 @@ fn full_cfg() -> Cfg {
             mk("r1", 2, 2, Trig::Size(Sc::Str("10 mb".into())), Roll::Window(None, 3), j),
             mk("r2", 3, 2, Trig::Time(Sc::Str("1 day".into()), Some(true), None), Roll::Delete, p.clone()),
             mk("r3", 4, 2, Trig::Time(Sc::Int(3600), None, Some(5)), Roll::Window(Some(1), 2), None),
-            mk("r4", 5, 2, Trig::OnStartUp(Some(10)), Roll::Delete, Some(Enc { kind_explicit: true, json: false, pattern: false })),
+            mk("r4", 5, 2, Trig::OnStartUp(Some(10)), Roll::Delete, Some(Enc { kind_explicit: true, json: false, pattern: None })),
         ],
     }
 }
@@ -1676,9 +2117,15 @@ pub fn gen(rng: &mut Rng, n: usize, thorough: bool, emit: &mut dyn FnMut(String)
     // integer-form boundary values of every numeric leaf, one rolling appender each, attached to
     // the root and probed
     {
-        let large = i64::MAX as u64;
         let mut variants: Vec<(Trig, Roll)> = vec![];
-        for v in [0u64, 1, large] {
+        // u64::MAX is valid for limit, min_size and max_random_delay; TOML cannot write it
+        for v in [0u64, 1, i64::MAX as u64, u64::MAX] {
+            if v == u64::MAX {
+                variants.push((Trig::Size(Sc::Int(v as i128)), Roll::Delete));
+                variants.push((Trig::OnStartUp(Some(v)), Roll::Delete));
+                variants.push((Trig::Time(Sc::Int(5), Some(false), Some(v)), Roll::Delete));
+                continue;
+            }
             variants.push((Trig::Size(Sc::Int(v as i128)), Roll::Delete));
             variants.push((Trig::Size(Sc::Int(v as i128)), Roll::Window(None, 2)));
             variants.push((Trig::OnStartUp(Some(v)), Roll::Window(Some(1), 1)));
@@ -1688,9 +2135,7 @@ pub fn gen(rng: &mut Rng, n: usize, thorough: bool, emit: &mut dyn FnMut(String)
         }
         for b in [0u64, 1, u32::MAX as u64] {
             for n in [0u64, 1, u32::MAX as u64] {
-                if n > 0 && b + (n - 1) > u32::MAX as u64 {
-                    continue;
-                }
+                // (an unrepresentable window is kept: that appender cannot be built)
                 variants.push((Trig::Size(Sc::Str("10 mb".into())), Roll::Window(Some(b), n)));
             }
         }
@@ -1705,7 +2150,7 @@ pub fn gen(rng: &mut Rng, n: usize, thorough: bool, emit: &mut dyn FnMut(String)
                     filters: None,
                     path: "r.log".into(),
                     flag: None,
-                    enc: Some(Enc { kind_explicit: false, json: false, pattern: true }),
+                    enc: Some(Enc { kind_explicit: false, json: false, pattern: Some((i % 3) as u8) }),
                     target: None,
                     policy_kind: i % 2 == 0,
                     trig,
@@ -1713,6 +2158,78 @@ pub fn gen(rng: &mut Rng, n: usize, thorough: bool, emit: &mut dyn FnMut(String)
                 }],
             };
             emit_case(emit, &cfg, &[("x".into(), 3), ("y".into(), 2), ("z".into(), 5)], i as u64, None);
+        }
+    }
+    // console appenders: every target × tty_only × encoder form, all of them attached to the root
+    {
+        let mut apps = vec![];
+        let mut i = 0;
+        for target in [None, Some(false), Some(true)] {
+            for flag in [None, Some(false), Some(true)] {
+                let enc = match i % 4 {
+                    0 => None,
+                    1 => Some(Enc { kind_explicit: true, json: true, pattern: None }),
+                    2 => Some(Enc { kind_explicit: false, json: false, pattern: Some(1) }),
+                    _ => Some(Enc { kind_explicit: true, json: false, pattern: None }),
+                };
+                apps.push(App {
+                    name: format!("c{}", i),
+                    kind: 0,
+                    filters: if i % 2 == 0 { None } else { Some(vec!["warn".into()]) },
+                    path: "_".into(),
+                    flag,
+                    enc,
+                    target,
+                    policy_kind: false,
+                    trig: Trig::OnStartUp(None),
+                    roll: Roll::Delete,
+                });
+                i += 1;
+            }
+        }
+        let names: Vec<String> = apps.iter().map(|a| a.name.clone()).collect();
+        let cfg = Cfg { refresh: Some("1h 30m".into()), root: Some((Some("trace".into()), Some(names))), loggers: vec![], appenders: apps };
+        for seed in [0u64, 1, 2, 3] {
+            emit_case(emit, &cfg, &[("x".into(), 3), ("y".into(), 1)], seed, None);
+        }
+        let all = injections(&cfg);
+        for (i, inj) in all.iter().enumerate().filter(|(i, _)| i % 7 == 0) {
+            emit_case(emit, &cfg, &[("x".into(), 3)], i as u64, Some(inj));
+        }
+    }
+    // file names: the extension decides the format, case-sensitively
+    for (i, fname) in ["cfg.yml", "cfg.yaml", "cfg.YAML", "cfg.Yml", "cfg", "cfg.", ".yaml", "cfg.yaml.bak", "cfg.txt", "a.b.yml", "cfg.ya ml"].iter().enumerate() {
+        let inj: InjSpec = ("ext", vec![], format!("S{}", enc_str(fname)));
+        emit_case(emit, &full, &full_probes, i as u64, Some(&inj));
+    }
+    // pairs of simultaneous defects in the full configuration: two broken appenders, a broken filter
+    // inside a broken appender, an appender-level defect together with a document-level one, …
+    {
+        let a_kind: InjSpec = ("kind", vec![k("appenders"), k("a"), k("kind")], format!("S{}", enc_str("bogus")));
+        let a_path: InjSpec = ("miss", vec![k("appenders"), k("a"), k("path")], "X".into());
+        let a_f0: InjSpec = ("typ", vec![k("appenders"), k("a"), k("filters"), Step::Idx(0), k("level")], "I3".into());
+        let a_f1: InjSpec = ("kind", vec![k("appenders"), k("a"), k("filters"), Step::Idx(1), k("kind")], format!("S{}", enc_str("bogus")));
+        let a_f1env: InjSpec = ("miss", vec![k("appenders"), k("a"), k("filters"), Step::Idx(1), k("kind")], "X".into());
+        let r1_roll: InjSpec = ("unk", vec![k("appenders"), k("r1"), k("policy"), k("roller"), k("filters")], "Qe".into());
+        let r2_trig: InjSpec = ("num", vec![k("appenders"), k("r2"), k("policy"), k("trigger"), k("interval")], "I-1".into());
+        let r2_zero: InjSpec = ("zeromod", vec![k("appenders"), k("r2"), k("policy"), k("trigger"), k("interval")], "I0".into());
+        let root_unk: InjSpec = ("unk", vec![k("root"), k("zzz")], "I1".into());
+        let a_env: InjSpec = ("miss", vec![k("appenders"), k("a"), k("kind")], "X".into());
+        let pairs: Vec<Vec<InjSpec>> = vec![
+            vec![a_kind.clone(), r1_roll.clone()],
+            vec![a_path.clone(), r2_trig.clone()],
+            vec![a_f0.clone(), a_f1.clone()],
+            vec![a_f0.clone(), a_path.clone()],
+            vec![a_f1.clone(), a_kind.clone()],
+            vec![a_f1env.clone(), a_path.clone()],
+            vec![a_f0.clone(), a_env.clone()],
+            vec![a_kind.clone(), root_unk.clone()],
+            vec![r1_roll.clone(), r2_zero.clone()],
+            vec![a_f0.clone(), r2_zero.clone()],
+            vec![a_kind.clone(), r1_roll.clone(), r2_trig.clone()],
+        ];
+        for (i, p) in pairs.iter().enumerate() {
+            emit_multi(emit, &full, &full_probes, i as u64 * 31 + 5, p);
         }
     }
     // the empty document
@@ -1735,7 +2252,17 @@ pub fn gen(rng: &mut Rng, n: usize, thorough: bool, emit: &mut dyn FnMut(String)
             let cls = *rng.pick(&classes);
             let of_cls: Vec<_> = inj.into_iter().filter(|x| x.0 == cls).collect();
             let pick = rng.pick(&of_cls).clone();
-            emit_case(emit, &cfg, &probes, seed, Some(&pick));
+            // one time in four a second, independent defect in the same document
+            let second: Vec<InjSpec> = if rng.chance(1, 4) {
+                let all = injections(&cfg);
+                let cands: Vec<_> = all.into_iter().filter(|x| compatible(x, &pick)).collect();
+                if cands.is_empty() { vec![] } else { vec![rng.pick(&cands).clone()] }
+            } else {
+                vec![]
+            };
+            let mut both = vec![pick];
+            both.extend(second);
+            emit_multi(emit, &cfg, &probes, seed, &both);
         }
     }
 }
